@@ -85,4 +85,12 @@ def parseHM (s : List Char) : Option (Nat × Nat) :=
 /-- `str(datetime.timedelta(seconds=s))` for 0 ≤ s < 86400: `H:MM:SS` -/
 def strTimedelta (s : Nat) : List Char := decDigits (s / 3600) ++ [':'] ++ dec2 (s / 60 % 60) ++ [':'] ++ dec2 (s % 60)
 
+/-- a Python comparison operator by its source text -/
+def cmpOp : String → Int → Int → Bool
+  | "<", a, b => decide (a < b)
+  | "<=", a, b => decide (a ≤ b)
+  | ">", a, b => decide (a > b)
+  | ">=", a, b => decide (a ≥ b)
+  | _, _, _ => false
+
 end Model
